@@ -120,7 +120,7 @@ func runChild() {
 	r.Assume("NumRetries(n) means at most max(n,1) attempts per request, as implemented and as the package's own tests expect")
 	r.Assume("violations that rest on absence of progress (request-not-reissued, probe-starved) are raised only after 30 s without any event in the scenario (the longest worker timeout a scenario can legitimately reach is 8 s: at most three scripted silences, 2 s doubling) and only if the scenario's own dispatcher goroutine (pprof label) is parked at one statement in two samples 2 s apart; Stop-blocked likewise")
 
-	n := r.Pick(120, 40000)
+	n := r.Pick(300, 40000)
 	scs := c12.Generate(r.Seed, n)
 	width := r.Pick(128, 192)
 	if *conc > 0 {
